@@ -86,6 +86,11 @@ def check_surface(case, ctx):
     t2 = compatibility.flip_ctrlpts2d([[list(p) for p in r] for r in g], nu, nv)
     ctx.check(len(t2) == nv and all(len(r) == nu for r in t2) and all(_eq_pts([t2[v][u]], [g[u][v]]) for u in range(nu) for v in range(nv)),
               "flip_ctrlpts2d", "flip_ctrlpts2d is not the transpose of the 2-D net")
+    # one size given, the other left at its default: both are then detected from the array
+    for kwf in ({"size_u": nu}, {"size_v": nv}):
+        t4 = compatibility.flip_ctrlpts2d([[list(p) for p in r] for r in g], **kwf)
+        ctx.check(len(t4) == nv and all(len(r) == nu for r in t4) and all(_eq_pts([t4[v][u]], [g[u][v]]) for u in range(nu) for v in range(nv)),
+                  "flip_ctrlpts2d", "flip_ctrlpts2d(net, %r) is not the transpose of the %dx%d net (%d rows)" % (kwf, nu, nv, len(t4)))
     t3 = compatibility.flip_ctrlpts2d([[list(p) for p in r] for r in g])
     ctx.check(len(t3) == nv and all(_eq_pts([t3[v][u]], [g[u][v]]) for u in range(nu) for v in range(nv)), "flip_ctrlpts2d", "flip_ctrlpts2d (auto sizes) is not the transpose")
     # transpose
@@ -120,6 +125,14 @@ def check_surface(case, ctx):
     for u, c in enumerate(ex["v"]):
         ctx.check(_eq_pts(build.stored_points(c), [stored[v + nv * u] for v in range(nv)]) and c.degree == d["degree"][1] and shape.kv_close(list(c.knotvector), ko[1]),
                   "extract-v-curve", "v-curve %d is not the u=%d row of the net" % (u, u))
+    # the documented switches select the family of the same name
+    sw = [("u", {"extract_v": False}), ("v", {"extract_u": False})][case["u"] % 2]
+    ex1 = construct.extract_curves(obj, **sw[1])
+    other = "v" if sw[0] == "u" else "u"
+    ctx.check(len(ex1[sw[0]]) == len(ex[sw[0]]) and len(ex1[other]) == 0, "extract-switch",
+              "extract_curves(%r) returned %d u-curves and %d v-curves" % (sw[1], len(ex1["u"]), len(ex1["v"])))
+    for c1, c0 in zip(ex1[sw[0]], ex[sw[0]]):
+        ctx.check(build.snapshot(c1) == build.snapshot(c0), "extract-switch", "extract_curves(%r): a %s-curve differs from the one extracted by default" % (sw[1], sw[0]))
     # curves that run along v (one per u index) are stacked along u, and vice versa
     s_u = construct.construct_surface("u", *ex["v"], degree=d["degree"][0], knotvector=list(ko[0]))
     _same_def(ctx, s_u, before, "construct-surface-u", "construct_surface('u', v-curves)")
